@@ -9,7 +9,7 @@ from autobean_refactor.models.internal.surrounding_comments import SurroundingCo
 
 CASES = {'quick': 1500, 'thorough': 40000}
 GATES = {
-    'quick': {'edited_vs_reparse_pairs': 1500, 'edited_vs_reparse_other_structure': 150, 'slot_perturbations': 80, 'evaluations': 30000, 'equal_pairs': 15000, 'token_perturbations': 3000, 'child_perturbations': 2500,
+    'quick': {'arithmetic_edit_pairs': 40, 'edited_vs_reparse_pairs': 1500, 'edited_vs_reparse_other_structure': 150, 'slot_perturbations': 80, 'evaluations': 30000, 'equal_pairs': 15000, 'token_perturbations': 3000, 'child_perturbations': 2500,
               'attribution_perturbations': 500, 'type_perturbations': 300, 'class_fields_perturbed': 120, 'token_law_pairs': 10000,
               'whole_file_text_perturbations': 3000, 'token_law_after_edit': 3000, 'documents_in_small_blocks': 400, 'container_copy_pairs': 900, 'same_span_parent_child_pairs': 2000, 'same_text_same_tree_pairs': 300, 'models_with_custom_indent_by': 200,
               'submodel_copies': 4000},
@@ -220,12 +220,26 @@ def run_case(col, r, idx):
             return
     # "equal exactly when": an edited document and a fresh parse of its printed text have the same type, print the same text and -
     # where their trees (with comment ownership) are the same - must compare equal
-    if acl and idx % 4 == 2:
+    if idx % 4 in (2, 3):
         e = P.parse(text, models.File)
-        how = r.choice(['meta-added', 'meta-removed', 'claims-round-trip'])
+        how = r.choice(['meta-added', 'meta-removed', 'claims-round-trip', 'arithmetic', 'arithmetic', 'arithmetic'])
         try:
             ents = [m_ for m_ in e.raw_directives if hasattr(type(m_), 'meta')]
-            if how == 'meta-added' and ents:
+            if how == 'arithmetic':
+                mg = ops.MiscGenerator(r)
+                done = 0
+                for _ in range(r.randint(1, 3)):
+                    op = mg.arith_op(e)
+                    if op is None:
+                        break
+                    op.apply()
+                    done += 1
+                if not done:
+                    raise LookupError('no expression')
+                col.count('arithmetic_edit_pairs')
+                if not expect_equal(col, e, copy.deepcopy(e), 'edited-vs-its-copy:arithmetic', 'document after in-place arithmetic and its deep copy', dict(wit, edit=op.desc)):
+                    return
+            elif how == 'meta-added' and ents:
                 r.choice(ents).meta['kq'] = 'v'
             elif how == 'meta-removed' and any(len(m_.raw_meta) for m_ in ents):
                 r.choice([m_ for m_ in ents if len(m_.raw_meta)]).raw_meta.clear()
